@@ -904,4 +904,74 @@ theorem iRoundtrip_spec {s : St} {L : List Nat} (hv : LocalVec s.v L) :
   simpa [Vec.cap, HipVerif.Slots.iNew, uninits] using n3
 
 
+/-- a user call that cannot panic (no fault armed): only the call counter moves -/
+theorem St.tick_quiet {s : St} (hb : s.mem.budget = none) :
+    (s.onMem Mem.tick).1 = false ∧ (s.onMem Mem.tick).2.v = s.v ∧
+      (s.onMem Mem.tick).2.mem.next = s.mem.next ∧ (s.onMem Mem.tick).2.mem.budget = none ∧
+      (s.onMem Mem.tick).2.mem.out = s.mem.out := by
+  simp [St.onMem_eq, Mem.tick, hb]
+
+theorem iPopIf_spec {s : St} {L : List Nat} (ans : Bool) (hv : LocalVec s.v L)
+    (hb : s.mem.budget = none) :
+    (iPopIf ans s).1 = (match L.getLast? with
+      | none => .none
+      | some a => if ans then .some a else .none) ∧
+    Post s (iPopIf ans s).2 (if ans then L.dropLast else L) := by
+  unfold iPopIf
+  rw [hv.1]
+  by_cases h0 : L.length = 0
+  · have : L = [] := List.eq_nil_of_length_eq_zero h0
+    subst this
+    simp only [List.length_nil, if_true, List.getLast?_nil, List.dropLast_nil, ite_self]
+    exact ⟨trivial, Post.same hv rfl⟩
+  · rw [if_neg h0]
+    obtain ⟨t1, t2, t3, t4, t5⟩ := St.tick_quiet hb
+    generalize s.onMem Mem.tick = r at t1 t2 t3 t4 t5
+    obtain ⟨p, s1⟩ := r
+    simp only at t1 t2 t3 t4 t5 ⊢
+    subst t1
+    simp only [Bool.false_eq_true, if_false]
+    have hv1 : LocalVec s1.v L := by rw [t2]; exact hv
+    cases ans with
+    | false =>
+      simp only [Bool.false_eq_true, if_false]
+      refine ⟨?_, Post.same hv t2⟩
+      cases L.getLast? <;> rfl
+    | true =>
+      simp only [if_true]
+      obtain ⟨r, p⟩ := iPop_spec hv1
+      exact ⟨r, p.of_eq t2⟩
+
+theorem iExtIter_budget : ∀ (k : Nat) (s : St), s.mem.budget = none →
+    (iExtIter k s).2.mem.budget = none
+  | 0, s, hb => by
+    unfold iExtIter; exact (Mem.tick_of_none hb).2
+  | k + 1, s, hb => by
+    unfold iExtIter
+    obtain ⟨m', e1, e2, _, _⟩ := Mem.genVal_of_none hb
+    simp only [St.onMem_eq, e1]
+    split
+    · refine iExtIter_budget k _ ?_
+      simp only [St.store, St.wr, St.setLen]
+      split <;> first | exact e2 | rfl
+    · exact Mem.dropId_budget_of_none e2
+
+theorem iExtend_spec {s : St} {L : List Nat} (k : Nat) (hv : LocalVec s.v L)
+    (hb : s.mem.budget = none) :
+    (iExtend k s).1 = decide (s.v.cap < L.length + k) ∧
+    Post s (iExtend k s).2 (L ++ List.range' s.mem.next (min k (s.v.cap - L.length))) := by
+  unfold iExtend
+  obtain ⟨t1, t2, t3, t4, t5⟩ := St.tick_quiet hb
+  generalize s.onMem Mem.tick = r at t1 t2 t3 t4 t5
+  obtain ⟨p, s1⟩ := r
+  simp only at t1 t2 t3 t4 t5 ⊢
+  subst t1
+  simp only [Bool.false_eq_true, if_false]
+  obtain ⟨r1, r2⟩ := iExtIter_spec k s1 L (by rw [t2]; exact hv) t4
+  rw [t2] at r1
+  rw [t2, t3] at r2
+  have hb2 := iExtIter_budget k s1 t4
+  refine ⟨?_, ⟨r2.view, by rw [St.onMem_v, r2.cap, t2], by rw [St.onMem_v, r2.hdr, t2]⟩⟩
+  rw [r1, (St.tick_quiet hb2).1, Bool.or_false]
+
 end HipVerif.Slots
